@@ -62,6 +62,7 @@ type Witness struct {
 	Reached  []string          `json:"reached"`
 	Choices  []int             `json:"choices,omitempty"`
 	Symbolic bool              `json:"symbolic"`
+	NDChoices int              `json:"nd_choices"` // select / scheduler choices on the path: the native run may legitimately differ
 }
 
 // PathResult is what one completed path reports back.
@@ -366,6 +367,10 @@ type Machine struct {
 	namedErrs     map[string]Value
 	initDepth     int
 	seq           int
+	allocs        []sliceRef
+	asmOOB        int
+	trackAllocs   bool
+	ndChoices     int
 }
 
 type sliceRef struct {
@@ -528,6 +533,9 @@ func (m *Machine) noteUnknown(fr *Frame, what string) {
 func (m *Machine) Choose(fr *Frame, n int, what string) int {
 	if n <= 1 {
 		return 0
+	}
+	if what == "select" || what == "sched" || what == "pool.Get" {
+		m.ndChoices++
 	}
 	if m.inPrefix() {
 		d := m.prefix[m.pos]
@@ -779,7 +787,7 @@ func (m *Machine) makeWitness() {
 	if model == nil {
 		model = map[string]uint64{}
 	}
-	w := &Witness{Model: model, StrModel: smodel, Choices: append([]int{}, m.choices...), Symbolic: len(m.inputs)+len(m.strInputs) > 0}
+	w := &Witness{Model: model, StrModel: smodel, Choices: append([]int{}, m.choices...), Symbolic: len(m.inputs)+len(m.strInputs) > 0, NDChoices: m.ndChoices}
 	env := model
 	for _, o := range m.observedTerms {
 		w.Observed = append(w.Observed, o.render(env))
